@@ -7,7 +7,7 @@ from copy import deepcopy
 from typing import TYPE_CHECKING
 
 # Third Party Imports
-from numpy import argwhere, array, ceil, concatenate, delete, dot, hstack, linspace, ones, outer
+from numpy import argmax, argwhere, array, ceil, concatenate, delete, dot, hstack, linspace, ones, outer
 from numpy import round as np_round
 from numpy import sum as np_sum
 from numpy import union1d, vstack, zeros
@@ -646,8 +646,10 @@ class AdaptiveFilter(KalmanFilter):
             prune_index (``ndarray``): indices of models to be pruned
             observations (``list``): :class:`.Observation` objects associated with the filter step
         """
+        # Don't prune everything: when every model is marked, the most probable one survives
+        if len(prune_index) >= len(self.models):
+            prune_index = prune_index[prune_index != argmax(self.model_weights)]
         for index in reversed(prune_index):
-            # Don't prune everything
             if len(self.models) != 1:
                 self.models.pop(index)
                 self.num_models -= 1
